@@ -74,7 +74,7 @@ type dstate struct {
 }
 
 func suffix(dec *picobuf.Decoder) string {
-	return fmt.Sprintf("@%d/%d", int32(dec.PendingField()), dec.VerifRemaining())
+	return fmt.Sprintf("@%d/%d", int32(dec.PendingField()), ovRemaining(dec))
 }
 
 func wireOfKind(k int) int {
@@ -102,11 +102,11 @@ func (o *dop) run(dec *picobuf.Decoder, st *dstate) {
 			setScalar(o.k, p.Elem(), 90, nil)
 		}
 		sentinel := showScalar(o.k, p.Elem())
-		beforePF, beforeRem, beforeErr, beforeWire := dec.PendingField(), dec.VerifRemaining(), dec.Err(), dec.VerifPendingWire()
+		beforePF, beforeRem, beforeErr, beforeWire := dec.PendingField(), ovRemaining(dec), dec.Err(), ovPendingWire(dec)
 		reflect.ValueOf(dec).MethodByName(goNames[o.k]).Call([]reflect.Value{reflect.ValueOf(field), p})
 		after := showScalar(o.k, p.Elem())
 		if beforePF != field {
-			if dec.PendingField() != beforePF || dec.VerifRemaining() != beforeRem || dec.Err() != beforeErr || after != sentinel {
+			if dec.PendingField() != beforePF || ovRemaining(dec) != beforeRem || dec.Err() != beforeErr || after != sentinel {
 				st.contract = append(st.contract, fmt.Sprintf("reader %s(%d) touched the decoder although field %d was pending", goNames[o.k], o.field, beforePF))
 			}
 		} else if beforeWire != wireOfKind(o.k) {
@@ -117,13 +117,13 @@ func (o *dop) run(dec *picobuf.Decoder, st *dstate) {
 		st.log = append(st.log, "r="+after+suffix(dec))
 	case "RR":
 		p := reflect.New(reflect.SliceOf(goTypes[o.k]))
-		beforePF, beforeRem := dec.PendingField(), dec.VerifRemaining()
+		beforePF, beforeRem := dec.PendingField(), ovRemaining(dec)
 		reflect.ValueOf(dec).MethodByName("Repeated" + goNames[o.k]).Call([]reflect.Value{reflect.ValueOf(field), p})
 		var vs []string
 		for i := 0; i < p.Elem().Len(); i++ {
 			vs = append(vs, showScalar(o.k, p.Elem().Index(i)))
 		}
-		if beforePF != field && (dec.PendingField() != beforePF || dec.VerifRemaining() != beforeRem || len(vs) != 0) {
+		if beforePF != field && (dec.PendingField() != beforePF || ovRemaining(dec) != beforeRem || len(vs) != 0) {
 			st.contract = append(st.contract, fmt.Sprintf("reader Repeated%s(%d) touched the decoder although field %d was pending", goNames[o.k], o.field, beforePF))
 		}
 		if beforePF == field && dec.PendingField() == field {
@@ -307,6 +307,13 @@ func (c *ctx) inputFor(prog []dop, fields []int32, depth int) []byte {
 
 // streamD: random programs over the low-level Decoder API on matching, mismatching and malformed input.
 func (c *ctx) streamD() error {
+	c.focusedReaders(c.n / 3)
+	c.focusedErrors(c.n / 3)
+	if !haveOverlay {
+		c.rep.Notes = append(c.rep.Notes, "stream D skipped: built without the overlay exports")
+		c.rep.Rule = "skipped (no overlay)"
+		return nil
+	}
 	c.rep.Rule = "random (input, program) pairs: programs over all 30 typed readers, RepeatedEnum, Message, RepeatedMessage+Loop, Loop, UnrecognizedFields(mask), Fail; inputs whose records mostly fit the program's readers, with wrong wire types, packed/unpacked, non-minimal and out-of-range varints, unknown fields, groups, truncations and mutations; observed after every call: stored value, pending field, remaining length; at the end error text; distinct = distinct (input, program)"
 	type dc struct {
 		prog []dop
@@ -375,7 +382,7 @@ func (c *ctx) streamD() error {
 				if dec.Err() != nil {
 					e = strings.ReplaceAll(dec.Err().Error(), " ", "_")
 				}
-				line = fmt.Sprintf("pf=%d rem=%d err=%s %s", int32(dec.PendingField()), dec.VerifRemaining(), e, strings.Join(st.log, ";"))
+				line = fmt.Sprintf("pf=%d rem=%d err=%s %s", int32(dec.PendingField()), ovRemaining(dec), e, strings.Join(st.log, ";"))
 				if e == "0" {
 					c.count("final=ok")
 				} else {
@@ -404,4 +411,211 @@ func (c *ctx) streamD() error {
 		}
 	}
 	return nil
+}
+
+// refDecode: the protobuf specification's reading of a wire number for a scalar kind, as a bit
+// pattern (written on the reference protowire package's conversions).
+func refDecode(k int, x uint64) uint64 {
+	switch schema.Scalars[k] {
+	case "bool":
+		if x != 0 {
+			return 1
+		}
+		return 0
+	case "int32", "uint32":
+		return uint64(uint32(x))
+	case "sint32":
+		return uint64(uint32(int32(refwire.DecodeZigZag(x & 0xffffffff))))
+	case "sint64":
+		return uint64(refwire.DecodeZigZag(x))
+	}
+	return x
+}
+
+// focusedReaders: one typed reader on occurrences of its own field, encoded in every legal way
+// (packed, unpacked, mixed, non-minimal varints, out-of-range varints for narrow kinds), against
+// the values the specification prescribes — a model-independent oracle for C13/C15/C02.
+func (c *ctx) focusedReaders(n int) {
+	r := c.r
+	for i := 0; i < n; i++ {
+		k := r.Intn(13) // numeric kinds
+		field := int32(1 + r.Intn(40))
+		if r.Intn(6) == 0 {
+			field = []int32{2047, 2048, 1 << 21, 1<<29 - 1}[r.Intn(4)]
+		}
+		cnt := 1 + r.Intn(6)
+		var want []uint64
+		var in []byte
+		wt := refWireType(k)
+		rawVals := make([]uint64, cnt)
+		for j := range rawVals {
+			rawVals[j] = gen.Bits(r, "uint64")
+			if r.Intn(2) == 0 {
+				rawVals[j] = gen.Bits(r, schema.Scalars[k])
+			}
+			if wt == refwire.Fixed32Type {
+				rawVals[j] &= 0xffffffff
+			}
+			want = append(want, refDecode(k, rawVals[j]))
+		}
+		enc1 := func(v uint64) []byte {
+			switch wt {
+			case refwire.Fixed32Type:
+				return refwire.AppendFixed32(nil, uint32(v))
+			case refwire.Fixed64Type:
+				return refwire.AppendFixed64(nil, v)
+			}
+			if r.Intn(3) == 0 {
+				return gen.NonMinimalVarint(v, 1+r.Intn(4))
+			}
+			return refwire.AppendVarint(nil, v)
+		}
+		// split the values into runs, each run packed or unpacked
+		for j := 0; j < cnt; {
+			run := 1 + r.Intn(cnt-j)
+			if r.Intn(2) == 0 {
+				var p []byte
+				for _, v := range rawVals[j : j+run] {
+					p = append(p, enc1(v)...)
+				}
+				in = refwire.AppendTag(in, refwire.Number(field), refwire.BytesType)
+				in = refwire.AppendBytes(in, p)
+			} else {
+				for _, v := range rawVals[j : j+run] {
+					in = refwire.AppendTag(in, refwire.Number(field), wt)
+					in = append(in, enc1(v)...)
+				}
+			}
+			j += run
+		}
+		c.rep.Evaluations++
+		var got []uint64
+		var errText string
+		p, to := guarded(10e9, func() {
+			dec := picobuf.NewDecoder(in)
+			sl := reflect.New(reflect.SliceOf(goTypes[k]))
+			dec.Loop(func(cc *picobuf.Decoder) {
+				reflect.ValueOf(cc).MethodByName("Repeated" + goNames[k]).Call([]reflect.Value{reflect.ValueOf(picobuf.FieldNumber(field)), sl})
+			})
+			if dec.Err() != nil {
+				errText = dec.Err().Error()
+			}
+			for j := 0; j < sl.Elem().Len(); j++ {
+				var u uint64
+				fmt.Sscan(showScalar(k, sl.Elem().Index(j)), &u)
+				got = append(got, u)
+			}
+		})
+		cs := map[string]string{"reader": "Repeated" + goNames[k], "field": fmt.Sprint(field), "input": hexs(in)}
+		if to || p != "" {
+			c.disagree(Disagreement{Kind: "panic", Check: "decoder-program", Case: cs, Got: map[string]string{"real": p}})
+			continue
+		}
+		if errText != "" || fmt.Sprint(got) != fmt.Sprint(want) {
+			c.disagree(Disagreement{Kind: "real!=ref", Check: "reader-matches-reference", Case: cs, Got: map[string]string{"real": fmt.Sprint(got), "ref": fmt.Sprint(want), "err": errText}})
+		}
+		// the singular reader: last occurrence wins (only for unpacked encodings)
+		if cnt >= 1 {
+			var in2 []byte
+			for _, v := range rawVals {
+				in2 = refwire.AppendTag(in2, refwire.Number(field), wt)
+				in2 = append(in2, enc1(v)...)
+			}
+			var last string
+			errText = ""
+			p, _ := guarded(10e9, func() {
+				dec := picobuf.NewDecoder(in2)
+				v := reflect.New(goTypes[k])
+				dec.Loop(func(cc *picobuf.Decoder) {
+					reflect.ValueOf(cc).MethodByName(goNames[k]).Call([]reflect.Value{reflect.ValueOf(picobuf.FieldNumber(field)), v})
+				})
+				if dec.Err() != nil {
+					errText = dec.Err().Error()
+				}
+				last = showScalar(k, v.Elem())
+			})
+			if p != "" || errText != "" || last != fmt.Sprint(want[len(want)-1]) {
+				c.disagree(Disagreement{Kind: "real!=ref", Check: "reader-matches-reference", Case: map[string]string{"reader": goNames[k], "field": fmt.Sprint(field), "input": hexs(in2)}, Got: map[string]string{"real": last, "ref": fmt.Sprint(want[len(want)-1]), "err": errText, "panic": p}})
+			}
+		}
+	}
+}
+
+// focusedErrors (C19): a known field at nesting depth 0..2 with a wrong wire type or a truncated
+// value: the error must be non-nil and name THAT field's number.
+func (c *ctx) focusedErrors(n int) {
+	r := c.r
+	for i := 0; i < n; i++ {
+		k := r.Intn(15)
+		g := int32(1 + r.Intn(60))
+		if r.Intn(5) == 0 {
+			g = []int32{10, 100, 1000, 1099, 2047, 100000, 1<<29 - 1, 19000}[r.Intn(8)]
+		}
+		depth := r.Intn(3)
+		outer := []int32{int32(1 + r.Intn(30)), int32(1 + r.Intn(30))}
+		// the offending record
+		var bad []byte
+		truncated := r.Intn(2) == 0
+		if truncated {
+			bad = refwire.AppendTag(nil, refwire.Number(g), refWireType(k))
+			full := refScalar(k, gen.Bits(r, "uint64")|0x8000000000000000, gen.RawBytes(r, 5))
+			if refWireType(k) == refwire.VarintType {
+				full = []byte{0xff, 0xff} // unterminated varint
+			} else if len(full) > 1 {
+				full = full[:len(full)-1]
+			}
+			bad = append(bad, full...)
+		} else {
+			var w refwire.Type
+			for {
+				w = []refwire.Type{refwire.VarintType, refwire.Fixed32Type, refwire.Fixed64Type, refwire.BytesType}[r.Intn(4)]
+				if w != refWireType(k) {
+					break
+				}
+			}
+			bad = refwire.AppendTag(nil, refwire.Number(g), w)
+			switch w {
+			case refwire.VarintType:
+				bad = refwire.AppendVarint(bad, 1)
+			case refwire.Fixed32Type:
+				bad = refwire.AppendFixed32(bad, 1)
+			case refwire.Fixed64Type:
+				bad = refwire.AppendFixed64(bad, 1)
+			default:
+				bad = refwire.AppendBytes(bad, []byte{1})
+			}
+		}
+		in := bad
+		for d := depth - 1; d >= 0; d-- {
+			in = refwire.AppendBytes(refwire.AppendTag(nil, refwire.Number(outer[d]), refwire.BytesType), in)
+		}
+		c.rep.Evaluations++
+		var errText string
+		p, _ := guarded(10e9, func() {
+			dec := picobuf.NewDecoder(in)
+			v := reflect.New(goTypes[k])
+			read := func(cc *picobuf.Decoder) {
+				reflect.ValueOf(cc).MethodByName(goNames[k]).Call([]reflect.Value{reflect.ValueOf(picobuf.FieldNumber(g)), v})
+			}
+			var body func(level int) func(cc *picobuf.Decoder)
+			body = func(level int) func(cc *picobuf.Decoder) {
+				if level == depth {
+					return read
+				}
+				return func(cc *picobuf.Decoder) { cc.Message(picobuf.FieldNumber(outer[level]), body(level+1)) }
+			}
+			dec.Loop(body(0))
+			if dec.Err() != nil {
+				errText = dec.Err().Error()
+			}
+		})
+		cs := map[string]string{"reader": goNames[k], "field": fmt.Sprint(g), "depth": fmt.Sprint(depth), "input": hexs(in), "truncated": fmt.Sprint(truncated)}
+		if p != "" {
+			c.disagree(Disagreement{Kind: "panic", Check: "decoder-program", Case: cs, Got: map[string]string{"real": p}})
+			continue
+		}
+		if !strings.Contains(errText, fmt.Sprintf("parsing %d:", g)) || len(errText) < len(fmt.Sprintf("parsing %d: x", g)) {
+			c.disagree(Disagreement{Kind: "error-text", Check: "error-names-field", Case: cs, Got: map[string]string{"error": errText}})
+		}
+	}
 }
